@@ -101,9 +101,8 @@ class FinalizeModel:
             _, n, src, dst = a
             if dst == "WORK":
                 self.fwd = n if self.kind.get((src, n)) == "ics" else None
-        # model vs observers (C08 flavour, only what finalize depends on)
-        if self.fwd is not None and self.s.n != self.fwd:
-            raise Violation("model-desync", "schedule.n=%r, model forward position %r after %s" % (self.s.n, self.fwd, self._fmt(a)))
+        # (schedule.n disagreeing with the model's forward position is C08's subject; if it
+        # changes what finalize accepts, the next op_finalize reports it as wrong-outcome)
 
     def op_finalize(self, k):
         self.ops.append(["fin", k])
